@@ -63,11 +63,20 @@ def draw_wrappers(draw, local_doms):
                 ws.append(["E", {d: draw(INT(0, NCTL - 1)) for d in doms}])
         else:
             mp = {}
-            for d in names:
+            pat = draw(INT(0, 3))
+            if pat == 0 and len(names) >= 2:
+                mp = {names[0]: names[1], names[1]: names[0]}            # swap: must be applied simultaneously
+            elif pat == 1 and len(names) >= 2:
+                third = [x for x in ("sync", "b", "c") if x not in names[:2]] or ["c"]
+                mp = {names[0]: names[1], names[1]: third[0]}             # chain: the first target is a later source
                 if draw(BOOL):
-                    mp[d] = PICK(draw, ["sync", "b", "c"])
-            if not mp:
-                mp[names[0]] = PICK(draw, ["sync", "b", "c"])
+                    mp = dict(reversed(list(mp.items())))
+            else:
+                for d in names:
+                    if draw(BOOL):
+                        mp[d] = PICK(draw, ["sync", "b", "c"])
+                if not mp:
+                    mp[names[0]] = PICK(draw, ["sync", "b", "c"])
             ws.append(["D", mp])
             cur = [mp.get(d, d) for d in cur]
     return ws, cur
@@ -86,7 +95,7 @@ def draw_node(draw, depth, local_doms, prog_depth):
             "mem": None, "children": []}
     if node["split"]["lo"] == node["split"]["hi"]:
         node["split"]["lo"] = "comb"
-    if draw(INT(0, 2)) == 0:
+    if draw(INT(0, 1)) == 0:
         node["mem"] = {"w": PICK(draw, local_doms), "r": PICK(draw, local_doms), "transparent": False}
         if node["mem"]["w"] == node["mem"]["r"]:
             node["mem"]["transparent"] = draw(BOOL)
@@ -112,6 +121,14 @@ def trees(draw, prog_depth):
     mk(2, None)
     b_edge = "neg" if draw(INT(0, 2)) == 0 else "pos"
     return {"nodes": nodes, "b_edge": b_edge}
+
+
+def _ancestors(nodes, i):
+    out = []
+    while i is not None:
+        out.append(i)
+        i = nodes[i]["parent"]
+    return out
 
 
 def controls_for(nodes, i, d):
@@ -492,6 +509,11 @@ def body(ctx, case):
     if any(n["mem"] and any(k == "E" for k, _ in controls_for(nodes, i, n["mem"]["w"])[0]) for i, n in enumerate(nodes)):
         keys.append("c03:memory-under-enable")
     if any(w[0] in ("Rseq", "Eseq") for n in nodes for w in n["wrappers"]): keys.append("c03:single-signal-form")
+    def chained(mp):
+        return any(t in mp and t != s_ for s_, t in mp.items())
+    if any(n["mem"] and any(w[0] == "D" and chained(w[1]) for j in _ancestors(nodes, i) for w in nodes[j]["wrappers"])
+           for i, n in enumerate(nodes)):
+        keys.append("c03:memory-under-swapping-or-chained-renamer")
     if tree["b_edge"] == "neg": keys.append("c03:negedge-domain")
     if any(n["split"]["lo"] != "comb" for n in nodes): keys.append("c03:split-between-domains")
     nontrivial = (stats["coincident"] or stats["reset_then_edge"]) and stats["changed"]
@@ -507,4 +529,5 @@ def parts(tier):
 REQUIRED = ["c03:coincident", "c03:reset_then_edge", "c03:changed", "c03:async_rise", "c03:enable_low_edge",
             "c03:inserted_reset_edge", "c03:mem_checked", "c03:wrapper-R", "c03:wrapper-E", "c03:wrapper-D",
             "c03:stacked-wrappers", "c03:nested-wrappers", "c03:memory", "c03:memory-under-enable",
-            "c03:single-signal-form", "c03:negedge-domain", "c03:split-between-domains"]
+            "c03:single-signal-form", "c03:negedge-domain", "c03:split-between-domains",
+            "c03:memory-under-swapping-or-chained-renamer"]
